@@ -48,6 +48,19 @@ TWINS = [
     ("docstring-and-comment-edit", "gemclus/_base_gemini.py", [("        # Fix the random seed\n", "        # Seed the generator used everywhere below\n")]),
     ("tree-add-child-extend", "gemclus/tree/kauri.py", [("        self.gains += [0, 0]\n", "        self.gains.extend([0, 0])\n")]),
     ("val-score-step-assign", "gemclus/sparse/_base_sparse.py", [("        j += batch_size\n    validation_gemini /= len(X)", "        j = j + batch_size\n    validation_gemini /= len(X)")]),
+    ("mlcl-guard-clause", "gemclus/mlcl.py",
+     [("            for (i, j) in must_link:\n                if i in last_indices and j in last_indices:\n                    idx0, idx1 = last_indices.index(i), last_indices.index(j)\n                    gradient[idx0] -= factor * (y_pred[idx0] - y_pred[idx1])\n                    gradient[idx1] -= factor * (y_pred[idx1] - y_pred[idx0])\n",
+       "            for (i, j) in must_link:\n                if i not in last_indices or j not in last_indices:\n                    continue\n                idx0, idx1 = last_indices.index(i), last_indices.index(j)\n                gradient[idx0] -= factor * (y_pred[idx0] - y_pred[idx1])\n                gradient[idx1] -= factor * (y_pred[idx1] - y_pred[idx0])\n")]),
+    ("check-groups-rewritten", "gemclus/sparse/_base_sparse.py",
+     [("        if len(all_indices) == n_features_in:\n", "        if n_features_in == len(all_indices):\n"),
+      ("            if len(set(all_indices)) != len(all_indices):\n", "            if len(set(all_indices)) < len(all_indices):\n")]),
+    ("constraints-loop-inverted-test", "gemclus/_constraints.py",
+     [("                if not is_satisfied:\n                    if len(local_constraints) == 1:", "                if is_satisfied is False:\n                    if len(local_constraints) == 1:")]),
+    ("fit-validation-kwargs", "gemclus/_base_gemini.py",
+     [("        X = check_array(X)\n        X = validate_data(self, X, accept_sparse=True, dtype=np.float64, ensure_min_samples=self.n_clusters)",
+       "        X = check_array(X, dtype=\"numeric\", accept_sparse=False)\n        X = validate_data(self, X, accept_sparse=True, dtype=np.float64, ensure_min_samples=self.n_clusters)")]),
+    ("mmd-floor-plus-zero", "gemclus/gemini/_geomdistances.py",
+     [("            delta = np.sqrt(np.maximum(a + c - 2 * b, 0))", "            delta = np.sqrt(np.maximum(a + c - 2 * b, 0.0))")]),
     ("get-gemini-local", "gemclus/mlp/_mlp_geminis.py",
      [("        return MMDGEMINI(ovo=self.ovo, kernel=self.kernel, kernel_params=self.kernel_params)", "        return MMDGEMINI(kernel=self.kernel, ovo=self.ovo, kernel_params=self.kernel_params)")]),
 ]
